@@ -112,6 +112,9 @@ struct MssmKind {
       Out tmp;
       if (!mssm_script::run(a, tmp, *m)) {
          rejected = field_of(tmp.buf, "exc");
+         // an instruction threw (e.g. calculate_masses() on untreatable SM input): skip the rest of the spec
+         while (a.more() && a.peek() != "end") { a.s(); }
+         if (a.more()) { a.s(); }
          return nullptr;
       }
       return m;
